@@ -56,9 +56,19 @@ FIXED = [
 ]
 
 
+LATE_HEADERS = ["let zz 1", "map zz q", "register zr[2]", "from foo.bar usepulses *", "from .rel usepulses *", "map zz q[0:1]"]
+
+
 def cases(tier, rng):
     for t in FIXED:
         yield "fixed:" + t, {"text": t}, True
+    # a header statement after a body statement: a parse error AT that statement (position of the offending token)
+    for h in LATE_HEADERS:
+        for pre in ("register q[2]\nX q[0]\n", "let a 1\nregister q[2]\nloop 2 {\n\tX q[0]\n}\n\n", "X q[0]; "):
+            t = pre + h + "\n"
+            line = pre.count("\n") + 1
+            col = len(pre) - (pre.rfind("\n") + 1) + 1
+            yield "late-header:" + t, {"text": t, "min_pos": [line, col]}, True
     count = 60 if tier == "quick" else 1500
     for i in range(count):
         n = rng.choice([1, 2, 3])
@@ -135,6 +145,11 @@ def check(pl):
     o1, msg = outcome(text)
     if msg:
         return msg
+    if pl.get("min_pos"):
+        if o1[0] != "parse-error":
+            return f"a header statement after a body statement is not a parse error: {o1}"
+        if [o1[1], o1[2]] < list(pl["min_pos"]):
+            return f"misplaced header statement at {pl['min_pos']} reported at {[o1[1], o1[2]]}, before the offending statement"
     # sticky state: the same text after some other texts (failing and succeeding ones) gives the same outcome
     for other in _history[-3:]:
         outcome(other)
